@@ -399,7 +399,7 @@ func main() {
 	defer os.RemoveAll(work)
 	dataDir := filepath.Join(work, "data")
 
-	scs := scenarios(c.Rand, c.Thorough())
+	scs := scenarios(c.Rand.Fork(), c.Thorough())
 	if c.Replay != "" {
 		var rp struct {
 			Scenario scenario `json:"scenario"`
